@@ -16,7 +16,9 @@ use crate::rng::Rng;
 use crate::scen_chunk::gen_doc;
 use crate::source::{A_DATA, A_EOF};
 
-pub struct FaultScen;
+pub struct FaultScen {
+    pub corpus: bool,
+}
 
 fn strip_hard(st: &Stream) -> Stream {
     let mut s = st.clone();
@@ -154,10 +156,27 @@ impl FaultScen {
 
 impl Scenario for FaultScen {
     fn name(&self) -> &'static str {
-        "fault"
+        if self.corpus {
+            "corpusfault"
+        } else {
+            "fault"
+        }
     }
     fn gen(&self, rng: &mut Rng, base_seed: u64, run: u64, tier: Tier) -> Plan {
-        let mut p = Plan::new("fault", base_seed, run);
+        let mut p = Plan::new(self.name(), base_seed, run);
+        if self.corpus {
+            p.reader = ReaderKind::Plain;
+            if crate::scen_chunk::gen_corpus_plan(rng, &mut p) {
+                // coarse pieces keep the number of refill calls (= fault points) moderate
+                if p.stream.cuts.len() > 4000 {
+                    let k = p.stream.cuts.len() / 2000;
+                    p.stream.cuts = p.stream.cuts.iter().copied().step_by(k.max(1)).collect();
+                }
+                p.stream.faults.clear();
+                p.enumerate = true;
+                return p;
+            }
+        }
         let (doc, toks, note) = gen_doc(rng, true);
         p.doc = doc;
         p.toks = toks;
